@@ -7,7 +7,6 @@ package c13
 
 import (
 	"fmt"
-	"os"
 	"reflect"
 	"sort"
 	"strconv"
@@ -61,15 +60,13 @@ type Prog struct {
 	ParentVals  []string `json:"parent_vals,omitempty"`
 	ParentTypes []string `json:"parent_types,omitempty"`
 	Threads     [][]Op   `json:"threads"`
-	// Remapped counts delete-nearest operations the generator turned into plain deletes
-	// to keep the known-defect shape (see delnearPair) out of the search.
-	Remapped int `json:"remapped,omitempty"`
 }
 
-// delnearPair reports the names n for which the program has the shape of the known
-// DeleteGlobal defect: two different threads delete-nearest n, n is bound in the parent,
-// and n is (or may become) bound in the shared scope. DeleteGlobal looks n up under a
-// read lock, releases it, and deletes under a second (write) lock acquisition: two such
+// delnearPair reports the names n for which the program has the shape of the DeleteGlobal
+// defect repaired in /repo commit 0f00dad (generated and asserted like everything else;
+// a failure of this shape keeps its own signature): two different threads delete-nearest n, n is bound in the parent,
+// and n is (or may become) bound in the shared scope. DeleteGlobal looked n up under a
+// read lock, released it, and deleted under a second (write) lock acquisition: two such
 // calls can both see the shared binding and both delete it, so the parent binding
 // survives — no sequential order of two delete-nearest operations leaves it in place.
 func delnearPair(p Prog) []string {
@@ -104,8 +101,40 @@ func delnearPair(p Prog) []string {
 	return out
 }
 
-// allowDelnearPair lifts the exclusion (VERIF_C13_DELNEAR_PAIR=1), e.g. after DeleteGlobal was repaired.
-var allowDelnearPair = os.Getenv("VERIF_C13_DELNEAR_PAIR") == "1"
+// pairSurvives narrows the signature of the DeleteGlobal shape to its symptom: a name of
+// delnearPair is still bound in the parent in the final state (text as made by finalText).
+func pairSurvives(p Prog, final string) bool {
+	i := strings.LastIndex(final, "parent{values: ")
+	if i < 0 {
+		return false
+	}
+	seg := final[i+len("parent{values: "):]
+	if j := strings.Index(seg, " |"); j >= 0 {
+		seg = seg[:j]
+	}
+	for _, n := range delnearPair(p) {
+		for _, b := range strings.Split(seg, ",") {
+			if strings.HasPrefix(b, n+"=") {
+				return true
+			}
+		}
+	}
+	return false
+}
+
+func withName(l []string, n string) []string {
+	var out []string
+	for _, x := range pool {
+		has := x == n
+		for _, y := range l {
+			has = has || y == x
+		}
+		if has {
+			out = append(out, x)
+		}
+	}
+	return out
+}
 
 var opKinds = []string{"define", "define", "set", "set", "get", "get", "delete", "delnear", "deftype", "type", "copy", "syms", "tsyms", "string"}
 
@@ -149,27 +178,17 @@ func genProg(t *rapid.T, withString bool) Prog {
 		}
 		p.Threads = append(p.Threads, ops)
 	}
-	if !allowDelnearPair {
-		// known defect (signature C13|not-sequentially-consistent|two-delete-nearest-of-one-name):
-		// keep only the first thread's delete-nearest of such a name, the others become plain deletes
-		for _, n := range delnearPair(p) {
-			first := true
-			for ti := range p.Threads {
-				has := false
-				for oi := range p.Threads[ti] {
-					op := &p.Threads[ti][oi]
-					if op.K == "delnear" && op.N == n {
-						has = true
-						if !first {
-							op.K = "delete"
-							p.Remapped++
-						}
-					}
-				}
-				if has {
-					first = false
-				}
-			}
+	// raise the density of the shape "two threads delete-nearest one name that is bound in
+	// the shared scope and in the parent" (the shape of the repaired DeleteGlobal defect)
+	if rapid.IntRange(0, 5).Draw(t, "force_delnear_pair") == 0 {
+		n := rapid.SampledFrom(pool).Draw(t, "pair_name")
+		p.ParentVals = withName(p.ParentVals, n)
+		p.ChildVals = withName(p.ChildVals, n)
+		ti := rapid.IntRange(0, nt-1).Draw(t, "pair_t0")
+		tj := (ti + 1 + rapid.IntRange(0, nt-2).Draw(t, "pair_t1")) % nt
+		for _, x := range []int{ti, tj} {
+			k := rapid.IntRange(0, len(p.Threads[x])-1).Draw(t, "pair_pos")
+			p.Threads[x][k] = Op{K: "delnear", N: n}
 		}
 	}
 	return p
@@ -638,7 +657,7 @@ func classifyProg(p Prog, class func(string, ...interface{})) {
 	if len(p.ChildVals) == 0 {
 		class("shared_value_table_initially_absent")
 	}
-	if p.Remapped > 0 {
-		class("excluded_shape_two_threads_delete_nearest_one_name_remapped_to_delete")
+	if len(delnearPair(p)) > 0 {
+		class("shape_two_threads_delete_nearest_one_name_bound_in_both_scopes")
 	}
 }
